@@ -18,8 +18,27 @@ def _residual_err_ty(term):
 
 
 def try_operand(body, resid_term):
-    """The operand of the `Try::branch` call that feeds this from_residual."""
+    """The operand of the `?` that feeds this from_residual: (operand, block of the test)."""
     o = body.origin(resid_term["ops"][0], through_calls=False)
+    if o[0] == "agg" and o[2]["rv"].get("variant") in ("Err", "None") and o[2]["rv"].get("adt") in ("std::result::Result", "std::option::Option"):
+        # flattened form: the residual is the literal `Err(move (x as Err).0)` built on the Err edge of a switch on x
+        rv = o[2]["rv"]
+        if rv["ops"] and rv["ops"][0].get("k") in ("move", "copy"):
+            pl = rv["ops"][0]["pl"]
+            pr = pl["p"]
+            if len(pr) >= 2 and isinstance(pr[-2], dict) and pr[-2].get("dc") == "Err":
+                x = {"k": "copy", "pl": {"l": pl["l"], "p": pr[:-2]}}
+                tb = o[1]
+                for (d, s_) in body.control_deps.get(o[1], ()):
+                    si = body.switch_info(d)
+                    if si and si["kind"] == "discr" and si["place"]["l"] == pl["l"]:
+                        tb = d
+                return x, tb
+        elif not rv["ops"]:
+            for (d, s_) in body.control_deps.get(o[1], ()):
+                si = body.switch_info(d)
+                if si and si["kind"] == "discr" and si.get("adt") == "std::option::Option":
+                    return {"k": "copy", "pl": si["place"]}, d
     base = None
     if o[0] == "place":
         base = o[1]["l"]
@@ -78,11 +97,20 @@ def classify_cause(ctx, body, op, depth=0):
             return {"kind": "expr", "calls": calls, "variants": sorted(variants)}
         return {"kind": "call", "call": res}
     base = None
+    if o[0] == "place" and any(isinstance(p, dict) and "dc" in p and p["dc"] != "Ready" for p in o[1]["p"]):
+        # the payload of a larger value (e.g. the Ok value of an earlier `?`, the Some of an Option of Results)
+        return {"kind": "value", "ty": ty}
     if o[0] == "place":
         base = o[1]["l"]
     elif o[0] == "multi":
         base = o[1]
+    if o[0] == "agg":
+        base = op["pl"]["l"] if "pl" in op else None
+        base = _agg_base(body, op)
     if base is not None:
+        lit = _literal_result(ctx, body, base, depth)
+        if lit is not None:
+            return lit
         for d in body.whole_defs(base):
             if d[0] == "call":
                 nm = callee_name(d[2]) or ""
@@ -99,6 +127,69 @@ def classify_cause(ctx, body, op, depth=0):
     return {"kind": "value", "ty": ty}
 
 
+def _agg_base(body, op):
+    """The local that finally holds an aggregate reached through whole copies/moves."""
+    pl = op.get("pl")
+    for _ in range(12):
+        if pl is None or [p for p in pl["p"] if p != "deref"]:
+            return None
+        ds = body.whole_defs(pl["l"])
+        if len(ds) == 1 and ds[0][0] == "stmt" and ds[0][3]["rv"]["k"] == "use" and ds[0][3]["rv"]["op"].get("k") in ("move", "copy"):
+            pl = ds[0][3]["rv"]["op"]["pl"]
+            continue
+        return pl["l"]
+    return None
+
+
+def _literal_result(ctx, body, base, depth=0):
+    """A Result-valued local all of whose definitions are `Ok(..)` / `Err(..)` literals (what `opt.ok_or(E)`,
+    `match opt { Some(v) => Ok(v), None => Err(E) }`, `res.map_err(f)` ... all come down to once combinators
+    are expanded): classified by what the Err literals carry and by what the decision between the two looks at."""
+    ds = body.whole_defs(base)
+    if len(ds) < 2 or any(d[0] != "stmt" for d in ds):
+        return None
+    errs, oks = [], []
+    for d in ds:
+        rv = d[3]["rv"]
+        if rv["k"] == "agg" and rv.get("what") == "adt" and rv.get("adt") == "std::result::Result":
+            (errs if rv["variant"] == "Err" else oks).append((d[1], rv))
+        else:
+            return None
+    if not errs or not oks:
+        return None
+    variants = set()
+    passed_on = []
+    for bb, rv in errs:
+        at = body.atoms(rv["ops"][0]) if rv["ops"] else set()
+        variants |= {a[2] for a in at if a[0] == "variant"}
+        o = rv["ops"][0] if rv["ops"] else None
+        if o is not None and o.get("k") in ("move", "copy"):
+            inner = [p for p in o["pl"]["p"] if isinstance(p, dict) and p.get("dc") == "Err"]
+            if inner and depth < 4:
+                # Err(e) => Err(f(e)) / Err(e): the error of an inner Result is passed on
+                src = {"k": "copy", "pl": {"l": o["pl"]["l"], "p": o["pl"]["p"][:o["pl"]["p"].index(inner[0])]}}
+                passed_on.append(classify_cause(ctx, body, src, depth + 1))
+    if passed_on and not variants:
+        c = dict(passed_on[0])
+        c["mapped"] = True
+        return c
+    # what is the decision between Ok and Err about? the place whose discriminant the controlling switch reads
+    on = None
+    for bb, rv in errs:
+        for (d, s_) in body.control_deps.get(bb, ()):
+            si = body.switch_info(d)
+            if si and si["kind"] == "discr":
+                on = local_ty(body, {"k": "copy", "pl": si["place"]}) or si.get("adt")
+                if si.get("adt") == "std::result::Result" and depth < 4:
+                    # the Err branch of an inner Result is turned into another error (`map_err`, or a match doing the same)
+                    c = dict(classify_cause(ctx, body, {"k": "copy", "pl": si["place"]}, depth + 1))
+                    c["mapped"] = True
+                    return c
+    if len(variants) == 1:
+        return {"kind": "ok_or", "err": sorted(variants)[0], "on": on}
+    return {"kind": "expr", "calls": [], "variants": sorted(variants)}
+
+
 def exits(ctx, body):
     """All blocks that assign the return place on the way to `return`."""
     out = []
@@ -108,7 +199,7 @@ def exits(ctx, body):
         if t["k"] == "call" and t["dest"]["l"] == 0 and not t["dest"]["p"] and (callee_name(t) or "").endswith("FromResidual::from_residual"):
             op, tb = try_operand(body, t)
             cause = classify_cause(ctx, body, op) if op is not None else {"kind": "?"}
-            out.append({"bb": b, "kind": "residual", "err_ty": _residual_err_ty(t), "cause": cause, "try_bb": tb})
+            out.append({"bb": b, "kind": "residual", "err_ty": _residual_err_ty(t), "cause": cause, "try_bb": tb, "try_op": op})
             continue
         for st in blk["stmts"]:
             if st["k"] == "assign" and st["lhs"]["l"] == 0 and not st["lhs"]["p"]:
